@@ -110,6 +110,24 @@ class Lockstep:
                 return seen["n"] - 1 in wanted
 
             self.transport.fail_predicate = predicate
+        if case.get("fail_reply_types"):
+            # fail every n-th write of a library-initiated internal reply of the given types (reboot command 13, config 6,
+            # time 1, version query 2, discover 20): the fault positions C06's reactions add to the receive path
+            reply_types = set(case["fail_reply_types"])
+            every = int(case.get("fail_reply_every") or 1)
+            seen_replies = {"n": 0}
+            earlier = self.transport.fail_predicate
+
+            def reply_predicate(attempt: int, line: str) -> bool:
+                if earlier is not None and earlier(attempt, line):
+                    return True
+                parsed = split_line(line)
+                if not parsed or parsed[2] != 3 or parsed[4] not in reply_types:
+                    return False
+                seen_replies["n"] += 1
+                return seen_replies["n"] % every == 0
+
+            self.transport.fail_predicate = reply_predicate
         self.stepper = Stepper(self.gateway, self.transport)
         self.mismatches: list[Mismatch] = []
         self.step_index = -1
@@ -290,6 +308,8 @@ class Lockstep:
         node0 = after.get(0)
         hint["node0_recreated"] = node0 is not None and node0 != before.get(0)
 
+        outstanding_before = set(self.model.outstanding)
+        two_x_before = spec.is2x(self.model.proto)
         model_before = self.model.snapshot()
         model_nodes_before = set(self.model.nodes)
         handed_before = set(self.model.handed_out)
@@ -298,8 +318,41 @@ class Lockstep:
         for point in exp.open_points:
             self.stats[f"open:{point}"] += 1
 
-        self.compare_outcome(line, exp, kind, value)
-        self.compare_writes(line, exp, writes, failed, t0, t1, model_nodes_before, handed_before, before, after)
+        # C10 at property level: whichever message kinds the implementation rejects for a missing node or child - also
+        # kinds the model lets pass - under 2.x every such rejection asks the node to present itself (once per episode)
+        if kind == "error" and two_x_before and hint.get("class") in ("MissingNodeError", "MissingChildError") \
+                and not any(tag == "presreq" for tag, _item in exp.writes):
+            parsed_line = split_line(line)
+            sender = parsed_line[0] if parsed_line else None
+            asked = [w for w in [*writes, *failed] if (split_line(w) or (0,) * 6)[2:5:2] == (3, spec.I_PRESENTATION)]
+            self.stats["clause:rejection-asks"] += 1
+            if sender is not None and sender not in outstanding_before and not asked:
+                self.bad("C10", "rejection-without-request", f"{line!r:.80} was rejected with {hint.get('class')} under a 2.x "
+                                                               f"protocol, no presentation request is outstanding for node "
+                                                               f"{sender}, and none was written")
+            elif sender is not None and asked and not failed:
+                self.model.outstanding.add(sender)
+        reply_types = set(self.case.get("fail_reply_types") or ())
+        failed_replies = [w for w in failed if (split_line(w) or (0,) * 6)[2] == 3 and (split_line(w) or (0,) * 6)[4] in reply_types]
+        if failed and len(failed_replies) == len(failed):
+            # a reply of the controller could not be written: the step may end in a transport error and later reactions of
+            # the same step may be missing, but nothing unspecified is written and - what the registry records is what was
+            # REPORTED (C04), not what could be answered - the registry still takes the message's effect
+            self.stats["clause:reply-write-failed"] += 1
+            if kind == "error":
+                info = exc_info(value)
+                if info["library"] and info["class"] not in ("TransportError", "TransportFailedError", "TransportReadError"):
+                    if not exp.error or info["class"] not in exp.error:
+                        self.bad("C04", "wrong-error-class", f"{line!r:.80}: a reply write failed, listen raised {info['class']}")
+            expected = Counter(item for _tag, item in exp.writes)
+            extra = [w for w in (Counter(writes) - expected).elements()
+                     if not ((split_line(w) or (0,) * 6)[2] == 3 and (split_line(w) or (0,) * 6)[4] == spec.I_TIME)]
+            if extra:
+                self.bad("C06", "unspecified-write", f"after {line!r:.80} (a reply write failed): wrote {extra}, specified "
+                                                     f"reactions {[item for _t, item in exp.writes]}")
+        else:
+            self.compare_outcome(line, exp, kind, value)
+            self.compare_writes(line, exp, writes, failed, t0, t1, model_nodes_before, handed_before, before, after)
         # registry
         self.stats["clause:registry"] += 1
         diff = masked_equal(self.model.snapshot(), after, exp.registry_may_differ_for)
